@@ -532,6 +532,54 @@ def rule_r4(chk, p, t):
 
     r.guard("importer-path-chain", path_chain)
 
+    def update_hop():
+        """From the engine's per-target observation list to the filter: the update registration keeps the list it is
+        given, hands exactly that list to the job, and the job passes it to the filter's update - no step selects a
+        subset (a filter on the observation's own epoch float drops imported observations whose stored Julian date
+        differs in the last bit from the run's own)."""
+        from rsa.terms import inline_locals
+
+        UPD = "resonaate.parallel.estimate_update"
+        reg = p.cls(f"{UPD}.EstUpdateRegistration")
+        sub = p.cls(f"{UPD}.EstUpdateSubmission")
+        job = p.func(f"{UPD}.asyncUpdateEstimate")
+        init, gen = reg.methods.get("__init__"), reg.methods.get("generateSubmission")
+        require(init is not None and gen is not None, "EstUpdateRegistration.__init__ / generateSubmission not found", reg.node)
+        bad = []
+        obs_param = next((q for q in init.params if "obs" in q), None)
+        stores = [n for n in walk_no_nested(init.node) if isinstance(n, ast.Assign) and len(n.targets) == 1 and isinstance(n.targets[0], ast.Attribute) and unparse(n.targets[0].value) == "self" and isinstance(n.value, ast.Name) and n.value.id == obs_param]
+        require(len(stores) == 1, "the registration does not store its observations argument in one attribute", init.node)
+        attr = stores[0].targets[0].attr
+        fields = list(sub.class_annots)
+        obs_field = next((f for f in fields if "obs" in f), None)
+        require(obs_field is not None, "EstUpdateSubmission has no observation field", sub.node)
+        ctor = [c for c in walk_no_nested(gen.node) if isinstance(c, ast.Call) and call_name(c) == sub.name]
+        require(len(ctor) == 1, "generateSubmission does not build one EstUpdateSubmission", gen.node)
+        c = ctor[0]
+        val = next((k.value for k in c.keywords if k.arg == obs_field), None)
+        if val is None and fields.index(obs_field) < len(c.args):
+            val = c.args[fields.index(obs_field)]
+        require(val is not None, f"{sub.name}.{obs_field} is not passed", c)
+        e = inline_locals(gen, val)
+        if unparse(e) == f"self.{attr}":
+            pass
+        elif any(isinstance(x, ast.comprehension) and x.ifs for x in ast.walk(e)) or any(isinstance(x, ast.Call) and call_name(x) == "filter" for x in ast.walk(e)):
+            bad.append(f"generateSubmission submits `{unparse(e)[:90]}`: a subset of the observations the engine routed to this target - the others are written to the database but never reach the filter")
+        else:
+            raise Undecided(f"observations submitted as `{unparse(e)[:80]}`", c)
+        ups = [x for x in walk_no_nested(job.node) if isinstance(x, ast.Call) and isinstance(x.func, ast.Attribute) and x.func.attr in ("update", "_update")]
+        require(len(ups) >= 1, "the update job does not call the filter's update", job.node)
+        for u in ups:
+            a0 = inline_locals(job, u.args[0]) if u.args else None
+            if a0 is None or unparse(a0) != f"{job.params[0]}.{obs_field}":
+                bad.append(f"the update job passes `{unparse(a0) if a0 is not None else None}` to {u.func.attr}(), not the submitted observations")
+        if bad:
+            r.violation(reg.qualname, "update-hop:" + ";".join(b[:50] for b in bad), "; ".join(bad), gen.loc(c))
+        else:
+            r.ok(reg.qualname, f"self.{attr} -> {sub.name}.{obs_field} -> filter update, whole list at every hop", gen.loc(c), obligations=2 + len(ups))
+
+    r.guard("update-hop", update_hop)
+
     # remote-handle typing
     def handles():
         stores = remote.install(p, t)
